@@ -187,6 +187,14 @@ def work(args):
                 if size > allowed:
                     bad.append(("state-created", "at t=%.3f the server holds %d connections on vport %d, only %d genuine clients exist" % (t, size, vp, allowed)))
                     break
+        # ... and no other state either: once every connection has ended, every container reachable from the transport object is
+        # as large as in the run without the hostile traffic
+        if atk[0] in ("datagram", "probe") and spec.transport == "udp" and not [b for b in bad if b[0] in ("crash", "reference")]:   # (a hostile stream connection that is still open IS state)
+            grown = {k: (ref.census.get(k, 0), v) for k, v in att.census.items() if v > ref.census.get(k, 0)}
+            if grown:
+                k = sorted(grown)[0]
+                bad.append(("state-left-behind", "after all connections have ended the server transport holds more state than without the hostile traffic: %s has %d entries instead of %d%s"
+                            % (k, grown[k][1], grown[k][0], (" (and %d more containers)" % (len(grown) - 1)) if len(grown) > 1 else "")))
         # work per read bounded by its size
         for ln, pk in att.decodes:
             if pk > ln // 10 + 1:
